@@ -33,7 +33,7 @@ type C14Case struct {
 
 var c14Sizes = []int{0, 1, 2, 100, 1023, 1024, 1025, 2047, 2048, 2049, 4095, 4096, 4097, 65535, 65536, 65537, 200000}
 
-var c14Supported = []string{"bytes", "bb", "buffer", "breader", "sreader", "netbuffers", "wt1", "wtN", "wtReuse", "bufio", "reader", "short", "eofdata", "errafter",
+var c14Supported = []string{"bytes", "bb", "bb1", "buffer", "breader", "sreader", "netbuffers", "wt1", "wtN", "wtReuse", "bufio", "reader", "short", "eofdata", "errafter",
 	"limited", "limitedcut", "multi", "section", "exact"}
 var c14Unsupported = []string{"string", "int", "struct", "nil", "intslice", "httpreq"}
 
@@ -137,6 +137,8 @@ func c14Carrier(c C14Case) (msg interface{}, want []byte) {
 			}
 		}
 		return segs, content
+	case "bb1": // a vector with exactly one element
+		return [][]byte{append([]byte{}, content...)}, content
 	case "buffer":
 		return bytes.NewBuffer(append([]byte{}, content...)), content
 	case "breader":
@@ -278,6 +280,21 @@ func runC14(c C14Case) (out core.Outcome) {
 		if rig.ex.Deferred() > 0 {
 			cls.Add("sender-deferred")
 			out.NonTrivial = true
+			// Write has returned: the caller may reuse its buffers at once; what is sent is what the message held
+			switch m := msg.(type) {
+			case []byte:
+				for i := range m {
+					m[i] = 0xDD
+				}
+				cls.Add("caller-buffer-reused")
+			case [][]byte:
+				for _, seg := range m {
+					for i := range seg {
+						seg[i] = 0xDD
+					}
+				}
+				cls.Add("caller-buffer-reused")
+			}
 		}
 		rig.ex.RunDeferred()
 		if err != nil {
@@ -346,7 +363,7 @@ func runC14(c C14Case) (out core.Outcome) {
 		case c.Carrier == "string":
 			want = mustContent(c)
 			fallthrough
-		case !unsupported && isReaderCarrier(c.Carrier), c.Carrier == "bytes", c.Carrier == "bb":
+		case !unsupported && isReaderCarrier(c.Carrier), c.Carrier == "bytes", c.Carrier == "bb", c.Carrier == "bb1":
 			if err != nil {
 				out.Violation = core.Viol("C14/toreader-rejects:"+c.Carrier, "ToReader(%T) returned %v", msg, err)
 				return
